@@ -3,6 +3,7 @@ import re
 
 from rules.engine import mir, q, panics
 from rules.engine.q import sig, force
+from rules.engine.sccp import V
 from rules.props import c11
 
 EXPLANATION = (
@@ -46,8 +47,8 @@ TABLE = [
     (r"^applytx::check_tx_validity\|(extern\|<&u128 as std::ops::Add<u128>>::add|assert\|Overflow\(Add\))\|(Option::unwrap_or\(HashMap::get|Entry::or_insert\(HashMap::entry)\(in_coins, ", "finding", "D20: the sum of the inputs of one denomination is a plain u128 `+`; distinct existing coins bound it by the supply, which is below 2^127 on mainnet but unbounded wherever Faucet transactions are admitted — the repository's own test `overflow_coins` (#[should_panic]) pins the abort, so it cannot be repaired with the suite unedited"),
     (r"^applytx::compute_doscmint_speed\|assert\|DivisionByZero\|", "inv", "called after this.history.get(coin.height)? succeeded (C18.R1): history holds only past headers, so coin.height < this.height"),
     (r"^applytx::compute_doscmint_speed\|extern\|<melstructs::BlockHeight as std::ops::Sub>::sub\|\$3,\$4", "inv", "coin.height < this.height (same reason)"),
-    (r"^applytx::compute_doscmint_speed\|(assert\|Overflow\(Mul\)|extern\|pow)\|", "assume", "reached only after Proof::verify returned true, which in melpow 0.1.2 requires difficulty ≤ 64 (larger values panic inside verify: finding D11)"),
-    (r"^melmint::calculate_reward\|extern\|pow\|2,\$3", "assume", "same: difficulty ≤ 64 once verification succeeded"),
+    (r"^applytx::compute_doscmint_speed\|(assert\|Overflow\(Mul\)|extern\|pow)\|", "after-verify", "reached only after Proof::verify returned true, which in melpow 0.1.2 requires difficulty ≤ 64 (larger values panic inside verify: finding D11)"),
+    (r"^melmint::calculate_reward\|extern\|pow\|2,\$3", "after-verify", "same: difficulty ≤ 64 once verification succeeded"),
     (r"^applytx::extract_input_coins\|unwrap\|unwrap\|HashMap::get\(ParallelIterator::collect", "inv", "the cache is built from exactly the inputs that are looked up (C02.R2 cache closures)"),
     # melpow::Proof::verify: identified by callee and hasher, not by the function that happens to host the call (see `_verify_finding`)
     (r"^[A-Za-z_0-9:]+\|extern\|verify\|.*LegacyMelPowHash", "finding", "D10/D11"),
@@ -66,7 +67,7 @@ TABLE = [
     (r"^executor::Executor::step::c0::c2[35]\|extern\|insert\|vec#2,0,", "inv", "CatVec::insert at index 0"),
     (r"^melmint::create_builtins\|extern\|deposit\|def,", "inv", "deposit into PoolState::new_empty(): the liqs == 0 branch does not divide"),
     (r"^melmint::dosc_to_erg\|unwrap\|unwrap\|BigInt::to_biguint", "inv", "product of non-negative ratios"),
-    (r"^melmint::dosc_to_erg\|unwrap\|expect\|<T as std::convert::TryInto<U>>::try_into", "assume", "reward·inflator < 2^128 (needs ≈2^90 sequential hashes)"),
+    (r"^melmint::dosc_to_erg\|unwrap\|expect\|<T as std::convert::TryInto<U>>::try_into", "after-verify", "reward·inflator < 2^128 for a difficulty that passed verification (needs ≈2^90 sequential hashes)"),
     (r"^melmint::microergs_per_dosc::c0\|assert\|Overflow\(Add\)\|", "assume", "inflator table stays below 2^128 (≈1.5e8 blocks) and height < u64::MAX"),
     (r"^melmint::microergs_per_dosc::c0\|index\|index\|tab,", "inv", "the loop above fills the table up to height"),
     (r"^melmint::microergs_per_dosc::c0\|unwrap\|unwrap\|core::slice::<impl \[T\]>::last\(tab\)", "inv", "the table is non-empty after the initial push"),
@@ -288,6 +289,27 @@ def r1_inventory(ctx):
             else:
                 fkey = "finding/" + re.sub(r"\|(extern\|<&u128 as std::ops::Add<u128>>::add|assert\|Overflow\(Add\))\|.*", "|input-total-overflow", key)[:150]
             r.violation(fkey, "reachable panic in the trusted base without a guard: %s (%s)" % (s.what, why), s.where())
+        elif verdict == "after-verify":
+            # "the difficulty is at most 64 / the reward fits" holds for a difficulty that PASSED Proof::verify — so the arithmetic on it must come after a
+            # successful verification, on every path (evaluated: in validate_and_get_doscmint_speed, with spliced helpers, every call of the site's function is
+            # dominated by proof_is_tip910(..) and unreachable when that call fails).  A "cheap pre-check" on the difficulty the transaction merely claims breaks it.
+            vb = prog.body("melstf::state::applytx::validate_and_get_doscmint_speed")
+            fn_short = s.body.nname.split("::")[-1] if s.body.kind != "Closure" else prog.by_id[s.body.parent].nname.split("::")[-1]
+            okv = None
+            if vb is not None:
+                pv = q.call_exprs(vb, "proof_is_tip910")
+                tgt = [bi_ for bi_, e_ in q.all_call_exprs(vb) if e_[0] == "call" and e_[1].split("::")[-1] in (fn_short, "check_dosc_total_output" if fn_short in ("dosc_to_erg", "calculate_reward") else fn_short)]
+                tgt += [bi_ for bi_, e_ in q.call_exprs(vb, fn_short)]
+                if pv and tgt:
+                    fv = force(vb, {pv[0][1]: V(1)})
+                    aft = fv.reach_from(pv[0][0])
+                    okv = all(vb.dominates(pv[0][0], t_) and t_ != pv[0][0] for t_ in set(tgt)) and not any(t_ in aft for t_ in set(tgt))
+            if okv is None:
+                r.undecided("site/" + key[:150], "whether %s runs only after a successful proof verification is not decided (call structure not read)" % fn_short, s.where())
+            else:
+                r.check(okv, "site/" + key[:150], "assume (evaluated: only after proof_is_tip910(..)? succeeded): " + why,
+                        "%s is reached with a difficulty that has not passed Proof::verify (a call of it in validate_and_get_doscmint_speed is not behind a successful proof_is_tip910): "
+                        "the difficulty a transaction merely claims (up to u32::MAX) overflows 2^difficulty, or saturates the reward and trips the `expect` in dosc_to_erg" % fn_short, s.where())
         elif verdict == "selected":
             ok = _selected_ok(prog, s)
             if ok is None:
